@@ -151,6 +151,17 @@ def judge_tuple(ctx, rng, j):
     seed = rbytes(rng, 32)
     m = rbytes(rng, rng.choice((0, 1, 32, 100, 255, 256, 512)))
     tk, t = tweak_for(rng, j)
+    if j % 7 == 3:
+        # the tweak whose point IS the signer's nonce point for this seed and
+        # message (T == R: the two points every instruction adds are equal);
+        # the repository's helpers only SELECT the input here - whether it
+        # hit is counted below against the R the instruction returns
+        try:
+            t = bytes(functions.clamp_scalar(functions.H_small(
+                functions.H_big(functions.H_big(seed)[32:], m))))
+            tk = 'nonce-scalar'
+        except Exception:
+            pass
     t_eff = int.from_bytes(t, 'little') & MASK
     if t_eff % L == 0:
         return
@@ -170,6 +181,8 @@ def judge_tuple(ctx, rng, j):
     st, exc = run(isa.push(seed) + pm + isa.push(T)
                   + O('MAKE_ADAPTER_SIG_PUBLIC'))
     ctx.evaluated()
+    if exc is None and len(st) == 2 and T in st:
+        ctx.count('tweak_point_equals_nonce_point')
     if exc is not None or len(st) != 2 or len(st[0]) != 32 or len(st[1]) != 32:
         ctx.violation('make-adapter-failed', 'MAKE_ADAPTER_SIG_PUBLIC did not '
                       'produce (R, sa)', base, '2 x 32 bytes',
